@@ -451,6 +451,15 @@ def _shape_known(v, need, guards, uni_facts):
         # helper predicates that imply functor-hood of their argument when true
         if g[0] == 'call' and g[1] in (N('_is_modifier'), N('_is_type_raised')) and g[2] == (v,) and pol and need == 'functor':
             return True
+    # the same facts when they only follow from the guards (a test folded into a helper's conditional value, ...)
+    wants = []
+    if need == 'functor':
+        wants = [logic.formula(('call', N('isinstance'), (v, N('Functor')), ())), logic.formula(A(v, 'is_functor')), logic.neg(logic.formula(A(v, 'is_atomic')))]
+    else:
+        wants = [logic.formula(('call', N('isinstance'), (v, N('Atom')), ())), logic.formula(A(v, 'is_atomic')), logic.neg(logic.formula(A(v, 'is_functor')))]
+    compound = [(g, pol) for g, pol in guards if g[0] in ('ifexp', 'bool', 'unop')]
+    if compound and any(logic.implied(list(guards), w_) for w_ in wants):
+        return True
     # successful unification: the input has at least the functor structure of its pattern
     path = []
     b = v
